@@ -919,6 +919,7 @@ func ruleLookupOrder(w *World, r *Report, e *Engine) {
 	// what a form evaluates to is decided by the form and its scope: the evaluator keeps no counters, tables or
 	// caches of its own between (or across) evaluations
 	sharedStateRule(w, r, "C01.no-process-state", "")
+	loaderKeepsHeaderRule(w, r, "C01.header-intact")
 	if mm := newEvalModel(w, e); mm.ok {
 		expansionOnlyRule(w, r, mm, "C01.expansion-only")
 	}
@@ -1242,6 +1243,18 @@ func ruleFalsy(m *evalModel, r *Report) {
 	cond := extractOf(calls[0].call, 0)
 	// condition operand is operand 1 of the form
 	r.check(m.isOperand(calls[0].ast, 1), "C01.falsy", m.EVAL, "form evaluated as the condition", calls[0].call.Pos(), "operand 1", "the condition evaluated is not operand 1 of the form")
+	// ... and it is evaluated whatever the branches are: nothing answers for the if form before the condition has
+	// been evaluated (a branch that is the literal nil is a branch; only the number of operands could be a ground
+	// to refuse the form, and the dispatch has fixed that before the arm)
+	for b := range reg {
+		if len(b.Instrs) == 0 {
+			continue
+		}
+		if ret, isRet := b.Instrs[len(b.Instrs)-1].(*ssa.Return); isRet {
+			cb := calls[0].call.Block()
+			r.check(cb == b || cb.Dominates(b), "C01.falsy", m.EVAL, "answer of the if form", ret.Pos(), "given after the condition was evaluated", "the if form is answered on a path on which the condition is never evaluated: a form is refused (or valued) by looking at its branches, so (if c nil x) - a branch that is the literal nil - is no longer the form the definition describes")
+		}
+	}
 	var cmps []*ssa.BinOp
 	okUses := true
 	for _, ref := range *cond.Referrers() {
